@@ -6,8 +6,11 @@ import (
 	"bytes"
 	"fmt"
 	"github.com/ddddddO/gtree/verifmc/mctx"
+	"os"
+	"path/filepath"
 	"sort"
 	"strings"
+	"verifharness/fsx"
 
 	"github.com/ddddddO/gtree"
 	mc "github.com/ddddddO/gtree/verifmc"
@@ -35,6 +38,7 @@ type c13Thread struct {
 	// shared: option values that BOTH threads pass to their calls (options are the caller's values: building them
 	// once and using them for many calls, from any goroutine, is ordinary use)
 	shared []gtree.Option
+	target string // for the K step: where this thread's tree is made
 }
 
 func (t *c13Thread) run() {
@@ -101,6 +105,15 @@ func (t *c13Thread) run() {
 			var buf bytes.Buffer
 			err := gtree.OutputFromRoot(&buf, real[0], t.shared...)
 			obs(fmt.Sprintf("%q %v", buf.String(), err), fmt.Sprintf("%q <nil>", model.RenderRoot(model.MergeNode(mnodes[0]), model.DefaultFmt)))
+		case "K":
+			// a real Mkdir of this thread's own tree below a directory that does not exist yet (the other thread makes
+			// ITS tree, with another root name, below the same directory at the same time)
+			err := gtree.MkdirFromRoot(real[0], gtree.WithTargetDir(t.target), gtree.WithFileExtensions([]string{".go"}))
+			made := "made"
+			if _, serr := os.Stat(filepath.Join(t.target, mnodes[0].Name)); serr != nil {
+				made = "not made"
+			}
+			obs(fmt.Sprintf("%v %s", err, made), "<nil> made")
 		case "M":
 			var buf bytes.Buffer
 			err := gtree.OutputFromMarkdown(&buf, strings.NewReader(s.Doc))
@@ -179,6 +192,7 @@ func jsonOf(n *model.Node) string {
 type c13Exec struct {
 	a, b *c13Thread
 	name string
+	jail *fsx.Jail
 }
 
 func (e *c13Exec) Body() {
@@ -195,6 +209,9 @@ func (e *c13Exec) Outcome() string {
 }
 
 func (e *c13Exec) Check(o *mc.Outcome) []Viol {
+	if e.jail != nil {
+		defer e.jail.Remove()
+	}
 	vs := endViolations("C13", o)
 	vs = append(vs, raceViolations("C13", o)...)
 	if o.End() != "complete" {
@@ -265,6 +282,22 @@ func init() {
 					},
 				})
 			}
+		}
+		// two threads that make their own trees (different root names) below the same, not yet existing, directory
+		for _, sc := range [][2][]tstep{
+			{{N("r"), A(0, "a"), A(1, "x.go"), O("K")}, {N("s"), A(0, "b"), O("K")}},
+			{{N("r"), O("K")}, {N("s.go"), O("K")}},
+		} {
+			sc := sc
+			name := fmt.Sprintf("c13/mkdir-below-one-missing-directory/%d||%d", len(sc[0]), len(sc[1]))
+			out = append(out, &Scenario{
+				Name: name, Prop: "C13", Bound: k, Policies: []int{0, 1, 2},
+				New: func() Exec {
+					j := fsx.NewJail("c13mc")
+					tg := filepath.Join(j.Target, "not", "yet", "there")
+					return &c13Exec{a: &c13Thread{script: sc[0], target: tg}, b: &c13Thread{script: sc[1], target: tg}, name: name, jail: j}
+				},
+			})
 		}
 		for _, p := range pairs {
 			p := p
